@@ -128,7 +128,7 @@ func NewSolver(timeoutS int, thorough bool) (*Solver, error) {
 	if err != nil {
 		return nil, err
 	}
-	return &Solver{dir: dir, timeoutS: timeoutS, thorough: thorough}, nil
+	return &Solver{dir: dir, timeoutS: timeoutS, thorough: thorough, keep: os.Getenv("GOVC_KEEP") != ""}, nil
 }
 
 func (s *Solver) Close() {
